@@ -13,9 +13,9 @@ def parse(path):
     return out
 old=json.load(open('/verif/selftest/matrix.json'))
 new={}
-F1=parse('/tmp/F1.p'); F2=parse('/tmp/F2.p'); F3=parse('/tmp/F3.p'); F4=parse('/tmp/F4.p'); F5=parse('/tmp/F5.p'); F6=parse('/tmp/F6.p'); R4=parse('/tmp/r4.p'); F7=parse('/tmp/F7.p'); F8=parse('/tmp/F8.p')
+F1=parse('/tmp/F1.p'); F2=parse('/tmp/F2.p'); F3=parse('/tmp/F3.p'); F4=parse('/tmp/F4.p'); F5=parse('/tmp/F5.p'); F6=parse('/tmp/F6.p'); R4=parse('/tmp/r4.p'); F7=parse('/tmp/F7.p'); F8=parse('/tmp/F8.p'); F12=parse('/tmp/F12.p')
 manual={'C03g':{'C03'},'C03h':{'C03'},'C14g':{'C14'},'C14h':{'C05'}}
-items=set(old)|set(F1)|set(F3)|set(R4)|set(manual)
+items=set(old)|set(F1)|set(F3)|set(R4)|set(manual)|set(F12)
 for it in sorted(items):
     if re.match(r'^b\d+-r\d', it):
         s=set()
@@ -26,7 +26,7 @@ for it in sorted(items):
         new[it]=sorted(s)
     else:
         s=set(old.get(it,[]))
-        for src in (F1,F3,R4,F7,manual):
+        for src in (F1,F3,R4,F7,F12,manual):
             s|=src.get(it,set())
         new[it]=sorted(s)
 json.dump(new, open('/verif/selftest/matrix.json','w'), indent=1)
